@@ -295,6 +295,20 @@ theorem keep_on_timeout_witness :
     (runOps true false {} [⟨1, true, false, 0⟩, ⟨2, false, false, 0⟩, ⟨3, false, false, 0⟩]).1 = [.timeout, .ok 1, .ok 2] ∧
     (runOps true false {} [⟨1, true, true, 0⟩, ⟨2, false, false, 0⟩]).1 = [.timeout, .ok 1] := by decide
 
+/-- The resend policy of the code, read off the regenerated retry loop: a failed
+attempt with `retries <= 0` is followed by another one UNLESS the loop returns first
+on a deadline error. This is the model's `resendAfterTimeout` parameter. -/
+def codeResendAfterTimeout : Bool :=
+  !(Gen.ClientConns.retryLoopFound &&
+    Gen.ClientConns.retryGuardsBeforeResend.contains
+      "if maxRetries <= 0 && errors.Is(errOuter, os.ErrDeadlineExceeded) { return nil, nRetries, errOuter }" &&
+    Gen.ClientConns.effectiveRetriesDef == "effectiveRetries := max(1, maxRetries)")
+
+/-- fact obligation: the code does not re-send after a timeout when no retries were
+requested (fix 6ed9058); removing that early return makes this, and with it
+`executed_once_by_the_code`, fail. -/
+theorem code_does_not_resend_after_timeout : codeResendAfterTimeout = false := by decide
+
 /-- full statement of "executed once on the leader" for the inter-node client: whatever
 the requests, the leader executes exactly the requests forwarded, each once, in order.
 FALSE of the code: a caller that asks for retries gets the request re-sent after a
@@ -322,6 +336,14 @@ theorem executed_once_partial (ops : List Op) (hr : ∀ op ∈ ops, op.retries =
       cases op.broadcast <;> cases op.slow <;> simp [this]
     simp [hone]
 
+/-- the same, for the policy the regenerated source actually has -/
+theorem executed_once_by_the_code (ops : List Op) (hr : ∀ op ∈ ops, op.retries = 0) (st : PState)
+    (h : Clean st) :
+    (runOps false codeResendAfterTimeout st ops).2.executed = st.executed ++ ops.map (·.tag) ∧
+    answersOwn ops (runOps false codeResendAfterTimeout st ops).1 = true := by
+  rw [code_does_not_resend_after_timeout]
+  exact ⟨executed_once_partial ops hr st h, responses_belong_to_requests false ops st h⟩
+
 /-- witness: one request with `retries = 1` whose answer is late is executed twice -/
 theorem executed_once_witness : ¬ executed_once_full := by
   intro h
@@ -333,6 +355,90 @@ theorem executed_once_witness : ¬ executed_once_full := by
 answer was late was sent again on a new connection and executed twice -/
 theorem resend_after_timeout_witness :
     (runOps false true {} [⟨1, true, false, 0⟩]).2.executed = [1, 1] := by decide
+
+/-! ### concurrent requests through one client -/
+
+def CInv (st : CState) : Prop :=
+  (∀ c ∈ st.pool, c = []) ∧ (∀ x ∈ st.inflight, x.2 = []) ∧
+  (∀ r ∈ st.results, r.2 = .timeout ∨ r.2 = .ok r.1)
+
+theorem cstep_inv (st : CState) (h : CInv st) (ev : CEv) : CInv (cstep false st ev) := by
+  obtain ⟨hp, hi, hr⟩ := h
+  cases ev with
+  | «begin» op =>
+    obtain ⟨hc1, hc2⟩ := takeConn_clean false st.pool hp
+    simp only [cstep]
+    refine ⟨hc2, ?_, hr⟩
+    intro x hx
+    simp only [List.mem_append, List.mem_singleton] at hx
+    rcases hx with hx | hx
+    · exact hi x hx
+    · rw [hx]; exact hc1
+  | finish tag =>
+    simp only [cstep]
+    cases hf : st.inflight.find? (fun x => x.1.tag == tag) with
+    | none => exact ⟨hp, hi, hr⟩
+    | some oc =>
+      obtain ⟨op, c⟩ := oc
+      have hmem : (op, c) ∈ st.inflight := List.mem_of_find?_eq_some hf
+      have hc : c = [] := hi _ hmem
+      have htag : op.tag = tag := by
+        have := List.find?_some hf
+        simpa using this
+      subst hc
+      simp only [attempt]
+      refine ⟨?_, ?_, ?_⟩
+      · cases hs : op.slow
+        · simp only [Bool.false_eq_true, if_false, putBack]
+          exact clean_putBack_nil _ hp
+        · simp only [if_true, Bool.false_eq_true, if_false, putBack]
+          exact hp
+      · intro x hx
+        exact hi x (List.mem_filter.1 hx).1
+      · intro r hr'
+        simp only [List.mem_append, List.mem_singleton] at hr'
+        rcases hr' with hr' | hr'
+        · exact hr r hr'
+        · rw [hr']
+          cases hs : op.slow <;> simp [htag]
+
+/-- ∀ interleavings of `begin` and `finish` events of any number of concurrent
+requests (any of which may time out) through one client, starting with nothing
+outstanding: every caller gets its own request's answer or a timeout, and the leader
+executes exactly the requests begun, each once, in the order they were sent. -/
+theorem concurrent_answers_belong_and_execute_once (evs : List CEv) :
+    ∀ st : CState, CInv st →
+      CInv (crun false st evs) ∧
+      (crun false st evs).executed =
+        st.executed ++ evs.filterMap (fun e => match e with | .begin op => some op.tag | .finish _ => none) := by
+  induction evs with
+  | nil => intro st h; exact ⟨h, by simp [crun]⟩
+  | cons ev evs ih =>
+    intro st h
+    have h1 := cstep_inv st h ev
+    obtain ⟨h2, h3⟩ := ih _ h1
+    have hrun : crun false st (ev :: evs) = crun false (cstep false st ev) evs := by simp [crun]
+    rw [hrun]
+    refine ⟨h2, ?_⟩
+    rw [h3]
+    cases ev with
+    | «begin» op => simp [cstep]
+    | finish tag =>
+      simp only [cstep]
+      cases hf : st.inflight.find? (fun x => x.1.tag == tag) with
+      | none => simp
+      | some oc => obtain ⟨op, c⟩ := oc; simp
+
+/-- non-vacuity: two requests overlap, the first times out, a third reuses the pool -/
+example :
+    (crun false {} [.begin ⟨1, true, false, 0⟩, .begin ⟨2, false, false, 0⟩, .finish 2, .finish 1,
+                    .begin ⟨3, false, false, 0⟩, .finish 3]).results = [(2, .ok 2), (1, .timeout), (3, .ok 3)] := by
+  decide
+
+/-- with the keep-on-timeout policy the same interleaving hands request 3 another answer -/
+example :
+    (crun true {} [.begin ⟨1, true, false, 0⟩, .finish 1, .begin ⟨3, false, false, 0⟩, .finish 3]).results
+      = [(1, .timeout), (3, .ok 1)] := by decide
 
 end Pool
 
